@@ -5,7 +5,8 @@ CFG = {
     "exe": "geomv_c01",
     "go_cmd": "c01",
     "stages": ["go:gen", "go:impl", "lean:judge"],
-    "theorems": [T + n for n in []],
+    "theorems": [T + n for n in ["C01_pointset", "C01_closed", "C01_empty_only_if_null", "C01_xor_defect_before_fix",
+                                 "construct_pointset", "boundsIntersection_pointset", "not_both_inside", "insideRing_rect", "inBox_of_inside"]],
     "level": "proof",
     "trusted_base": [
         "Lean 4.33.0 kernel; axioms of every theorem printed by #print axioms must be within {propext, Classical.choice, Quot.sound}",
